@@ -393,9 +393,26 @@ class StmtMixin:
             self.pop_scope(cx)
             out.append(ind + '}')
 
+    def has_continue(self, n):
+        k = n.get('kind')
+        if k == 'ContinueStmt':
+            return True
+        if k in ('WhileStmt', 'ForStmt', 'DoStmt', 'CXXForRangeStmt', 'LambdaExpr'):
+            return False
+        return any(self.has_continue(c) for c in n.get('inner', []) if isinstance(c, dict))
+
     def loop_body(self, body, cx, out, ind):
         """loop body followed by the ghost-code marker of the current loop"""
         o = cx.loop_ord
+        lbl = None
+        if self.has_continue(body):
+            # `continue` becomes a jump to the end of the body: one back edge per loop (loop contracts need that)
+            for sc in reversed(cx.scopes):
+                if sc['kind'] == 'loop':
+                    if not sc.get('cont_label'):
+                        sc['cont_label'] = cx.newlbl('cont')
+                    lbl = sc['cont_label']
+                    break
         out.append(ind + '{')
         self.push_scope(cx)
         if body.get('kind') == 'CompoundStmt':
@@ -409,6 +426,8 @@ class StmtMixin:
         else:
             self.stmt(body, cx, out, ind + '  ')
         self.pop_scope(cx)
+        if lbl:
+            out.append(ind + '  %s:;' % lbl)
         out.append(ind + '  /*@LOOPEND %s %d@*/' % (cx.cname, o))
         out.append(ind + '}')
 
@@ -435,9 +454,7 @@ class StmtMixin:
             for l in pre:
                 out.append(ind + '  ' + l)
             out.append(ind + '  if (!(%s)) break;' % v)
-            o = cx.loop_ord
-            self.stmt_block(body, cx, out, ind + '  ')
-            out.append(ind + '  /*@LOOPEND %s %d@*/' % (cx.cname, o))
+            self.loop_body(body, cx, out, ind + '  ')
             out.append(ind + '}')
         self.pop_scope(cx)
 
@@ -741,7 +758,22 @@ class StmtMixin:
                 self.emit_pre(cx, '%s.%s = %s;' % (target, fname, self.rv(i, cx)))
 
     def stdinit_into(self, e, target, cx):
-        self.err(e, 'std::initializer_list')
+        """std::initializer_list<T>{a,b,...}: backing array + (pointer, length); libstdc++ field names"""
+        arr = unwrap(e['inner'][0], ('MaterializeTemporaryExpr', 'ExprWithCleanups', 'ImplicitCastExpr'))
+        if arr.get('kind') != 'InitListExpr':
+            self.err(e, 'initializer_list backing array')
+        ati = self.einfo(arr)
+        elem = dict(ati); elem['suf'] = [x for x in ati['suf'] if not x.startswith('[')]
+        items = [self.rv(x, cx) for x in arr.get('inner', [])]
+        t = cx.newtmp('il')
+        self.emit_pre(cx, '%s %s[%d] = { %s };' % (self.decl_of(elem), t, max(1, len(items)), ', '.join(items) or '0'))
+        ti = self.einfo(e)
+        rec = self.ast.record_def(ti['rec'])
+        self.need_record(ti['rec'])
+        names = [self.field_cname(f) for f in self.ast.fields(rec)]
+        if names != ['_M_array', '_M_len']:
+            self.err(e, 'unexpected std::initializer_list layout %s' % names)
+        self.emit_pre(cx, '%s._M_array = %s; %s._M_len = %d;' % (target, t, target, len(items)))
 
     def ctor_inits(self, d, rec, cx, out):
         for ci in d.get('inner', []):
